@@ -231,7 +231,12 @@ def own_constraints(v):
         first = ("tuple", full[1][:1])
         return [lit(first), lit(full)]
     if k == "list":
-        return ["[]", lit(v)]
+        # the exemplar of the first element's type alone, and the list itself
+        zero = {"int": ("int", 0), "float": ("float", 0.0), "str": ("str", ""), "bool": ("bool", True)}
+        first = [lit(("list", [zero.get(v[1][0][0], v[1][0])]))] if v[1] else ["[]"]
+        return first + [lit(v)]
+    if k == "null":
+        return ["0", '""']           # NULL is admitted by every exemplar
     return []
 
 
@@ -354,6 +359,56 @@ def cclass(c):
     return "alt(" + ",".join(("range" if a[0] == "range" else a[1][0]) for a in c[1]) + ")"
 
 
+# The recursive constraint of the reference (typechecking.md), written directly, behind an alias, as an arm of another
+# named constraint and with the value first bound under the constraint itself. The documented examples have a
+# documented verdict; for every value the spellings must agree.
+REC_DECL = 'constraint node = "" | {name = "", children = [node]};\n'
+REC_SPELLINGS = {
+    "direct": "let x :: node = %s;\n",
+    "alias": "constraint n2 = node;\nlet x :: n2 = %s;\n",
+    "arm-of-another": "constraint opt = node | 0;\nlet x :: opt = %s;\n",
+    "arm-of-another-first": "constraint opt = 0 | node;\nlet x :: opt = %s;\n",
+    "through-constrained-binding": "let y :: node = %s;\nlet x :: node = y;\n",
+}
+REC_VALUES = [
+    ("leaf", '"hello"', True), ("empty-element", '{name = "a", children = []}', True), ("one-level", '{name = "a", children = ["t", {name = "b", children = []}]}', True),
+    ("deep", '{name = "a", children = [{name = "b", children = [{name = "c", children = ["p"]}]}]}', True),
+    ("number-child", '{name = "a", children = [42]}', False), ("number", "42.5", False), ("name-not-string", '{name = 1, children = []}', False),
+    ("children-not-list", '{name = "a", children = "x"}', False), ("deep-number-child", '{name = "a", children = [{name = "b", children = [42]}]}', None),
+    ("mixed-children", '{name = "a", children = ["ok", 42]}', None), ("only-name", '{name = "a"}', None), ("extra-field", '{name = "a", children = [], more = 1}', None),
+    ("bool", "true", False), ("list", '["a"]', False),
+]
+
+
+def work_recursive(chunk):
+    srv = core.worker_server()
+    d = sdir()
+    hist = {}
+    viol = []
+    for vn, vsrc, want in chunk:
+        got = {}
+        for sp, tpl in REC_SPELLINGS.items():
+            p = os.path.join(d, "r%d_%d.ucg" % (os.getpid(), next(_cnt)))
+            with open(p, "w") as f:
+                f.write(REC_DECL + tpl % vsrc)
+            rs = srv.req({"op": "build", "path": p})
+            os.unlink(p)
+            got[sp] = True if "ok" in rs else (False if "err" in rs else None)
+        bad = None
+        if None in got.values():
+            bad = ("crash", got)
+        elif want is not None and got["direct"] != want:
+            bad = ("rejects-conforming" if want else "admits-nonconforming", got)
+        elif len(set(got.values())) > 1:
+            bad = ("spellings-disagree", got)
+        k = "recursive-constraint:%s" % ("agrees" if bad is None else bad[0].upper())
+        hist[k] = hist.get(k, 0) + 1
+        if bad:
+            dev = "+".join(sp for sp, x in sorted(got.items()) if x != got["direct"]) or "direct"
+            viol.append(("%s:recursive-constraint:%s:%s" % (bad[0], dev, vn), REC_DECL + REC_SPELLINGS["direct"] % vsrc, bad[1]))
+    return {"evals": len(chunk) * len(REC_SPELLINGS), "hist": hist, "viol": viol}
+
+
 def run(ctx):
     cons = list(constraints())
     vals = values()
@@ -365,7 +420,7 @@ def run(ctx):
                 "the checker has no static shape) x {inline, named constraint, let-bound exemplar, named alias of a named constraint, an "
                 "alternation split over two named constraints (either side), the value first passing another binding whose constraint it "
                 "satisfies (two such constraints per type)}, each built as a file (checker + VM). All programs distinct; non-trivial = "
-                "the build gave a verdict." % (len(cons), len(tuple_exemplars()), len(LIST_EXEMPLARS), len(vals)))
+                "the build gave a verdict. Also the recursive constraint of the reference under five spellings x 14 values (documented verdicts; spellings must agree)." % (len(cons), len(tuple_exemplars()), len(LIST_EXEMPLARS), len(vals)))
     viol = []
     items = [(cls, c, v) for cls, c in cons for v in vals]
     for part in core.pmap(work, items, chunk=250):
@@ -375,6 +430,12 @@ def run(ctx):
         if part["sample"]:
             ctx.sample(part["sample"])
         viol.extend(part["viol"])
+    for part in core.pmap(work_recursive, REC_VALUES, chunk=2):
+        ctx.count(part["evals"], part["evals"])
+        for k, v in part["hist"].items():
+            ctx.outcome(k, v)
+        for sig, src, det in part["viol"]:
+            ctx.violation(sig, "%s: `%s`" % (sig, src.replace("\n", " ")), {"kind": "recursive-constraint", "src": src, "detail": det})
     viol.sort(key=lambda v: len(v[5]))
     seen = {}
     for cls, c, v, sp, kind, src, det in viol:
@@ -394,6 +455,13 @@ def run(ctx):
 
 
 def replay(case):
+    if case.get("kind") == "recursive-constraint":
+        core._WORKER_SERVER = None
+        item = [x for x in REC_VALUES if REC_DECL + REC_SPELLINGS["direct"] % x[1] == case["src"]]
+        part = work_recursive(item)
+        core.worker_server().close()
+        core._WORKER_SERVER = None
+        return not part["viol"], {"violations": part["viol"]}
     srv = core.Server()
     d = tempfile.mkdtemp(prefix="ucgverif-c06-")
     try:
